@@ -217,6 +217,10 @@ def history_part(ctx):
         executed = []
 
         in_place = rng.random() < 0.6
+        # "running it again": either a new Flow is built for every run, or the very same Flow object is run again
+        same_object = rng.random() < 0.4
+        if same_object:
+            in_place = False        # the sources are lists owned by the flow: a step that edits them in place would change its own input
 
         def step(k):
             def f(package):
@@ -250,8 +254,9 @@ def history_part(ctx):
                 links.append(step(c + 1))
             return Flow(*links)
         first = None
+        the_flow = make_flow() if same_object else None
         hist_case = {'checkpoints': n_cp, 'rows': len(data), 'ops': ops, 'in_place_steps': in_place,
-                     'resources_empty': empties}
+                     'resources_empty': empties, 'same_flow_object_for_every_run': same_object}
         for j, op in enumerate(ops):
             if op == 'delete':
                 shutil.rmtree(base, ignore_errors=True)
@@ -264,7 +269,7 @@ def history_part(ctx):
             del executed[:]
             try:
                 with quiet():
-                    res, dp, _ = make_flow().results()
+                    res, dp, _ = (the_flow if same_object else make_flow()).results()
             except Exception as e:  # noqa
                 rep.fail('history:run-raises', hist_case, repr(e)[:300])
                 break
